@@ -15,7 +15,7 @@ REPO = os.environ.get('VERIF_REPO', '/repo')
 # regex literals the trusted prelude is keyed to (prelude/regex.rs, prelude/chrono_parse.rs)
 ISO_REGEX_SHA256 = '8c4d55f195238861f2c9b5051c1b50599b788e4a5edac9e18a9682e53f269156'
 MULTISLASH_LITERAL = '"//+"'
-REGEX_USERS = {'MULTISLASH': ['C09', 'C01', 'C02', 'C08', 'C13'], 'ISO_8601_REGEX': ['C16', 'C08', 'C13']}
+REGEX_USERS = {'MULTISLASH': ['C09', 'C01', 'C02', 'C08', 'C13'], 'ISO_8601_REGEX': ['C16', 'C08', 'C13', 'C04', 'C02']}   # C04/C02: which renderings of an instant are accepted at all
 
 
 def assumption_guards(pid):
